@@ -74,9 +74,11 @@ func VerifSetupCallbacks(sm ShardManager) {
 	i.mutex.Unlock()
 }
 
-func VerifNotifyMsg(sm ShardManager, data []byte)         { verifImpl(sm).delegate.NotifyMsg(data) }
-func VerifMergeRemoteState(sm ShardManager, buf []byte)   { verifImpl(sm).delegate.MergeRemoteState(buf, false) }
-func VerifLocalState(sm ShardManager) []byte              { return verifImpl(sm).delegate.LocalState(false) }
+func VerifNotifyMsg(sm ShardManager, data []byte) { verifImpl(sm).delegate.NotifyMsg(data) }
+func VerifMergeRemoteState(sm ShardManager, buf []byte) {
+	verifImpl(sm).delegate.MergeRemoteState(buf, false)
+}
+func VerifLocalState(sm ShardManager) []byte { return verifImpl(sm).delegate.LocalState(false) }
 func VerifNotifyLeave(sm ShardManager, nodeName string) {
 	(&shardEventDelegate{manager: verifImpl(sm), logger: log.NewNoopLogger()}).NotifyLeave(&memberlist.Node{Name: nodeName, Addr: net.IPv4(127, 0, 0, 1)})
 }
